@@ -382,7 +382,7 @@ func genTemplate(r *gen.Rand) string {
 		}
 		return s
 	}
-	switch r.Intn(34) {
+	switch r.Intn(35) {
 	case 0:
 		return L() + W()
 	case 1:
@@ -466,6 +466,14 @@ func genTemplate(r *gen.Rand) string {
 		return W() + "(?i:" + L() + ")" + W()
 	case 29:
 		return ci(L()) + "(?:" + W() + L() + "|" + L() + ")"
+	case 34:
+		// a long literal among the alternatives: the lengthMask boundary at 63/64 bytes
+		n := gen.Pick(r, []int{62, 63, 64, 65, 100, 200})
+		a := longLit(n) + "|" + A(1+r.Intn(3))
+		if r.Chance(1, 3) {
+			a += "|" + manyAlts(14)
+		}
+		return gen.Pick(r, []string{"", "(", "x(", "(?:"}) + a + ")"
 	case 33:
 		// second literal is a suffix of the first: containsInOrder must not re-use its runes
 		l1 := gen.Pick(r, []string{"ab", "aa", "foo", "aba", "abab", "x1", "zz"})
@@ -692,7 +700,7 @@ func main() {
 		var strs []string
 		sset := map[string]bool{}
 		add := func(s string) {
-			if !sset[s] && utf8.ValidString(s) && len(s) < 200 {
+			if !sset[s] && utf8.ValidString(s) && len(s) <= 260 {
 				sset[s] = true
 				strs = append(strs, s)
 			}
@@ -916,6 +924,46 @@ func main() {
 type corpusEntry struct {
 	name, pat string
 	strs      []string
+}
+
+// longLit is an ASCII literal of exactly n bytes (distinct per n): the lengthMask boundary
+// (bit min(len,63)) needs values of 62, 63, 64, 65 and more bytes.
+func longLit(n int) string {
+	return fmt.Sprintf("L%dq", n) + strings.Repeat("x", n-len(fmt.Sprintf("L%dq", n)))
+}
+
+func longAlts(short int, ns ...int) (string, []string) {
+	var it, probes []string
+	for _, n := range ns {
+		l := longLit(n)
+		it = append(it, l)
+		probes = append(probes, l, l+"x", l[:len(l)-1])
+	}
+	for i := 0; i < short; i++ {
+		it = append(it, fmt.Sprintf("v%d", i))
+	}
+	probes = append(probes, "v0")
+	return strings.Join(it, "|"), probes
+}
+
+func init() {
+	add := func(name, pre, post string, short int, ns ...int) {
+		a, probes := longAlts(short, ns...)
+		for i := range probes {
+			if pre != "" && pre != "(" && pre != "(?:" {
+				probes[i] = strings.TrimSuffix(pre, "(") + probes[i]
+			}
+		}
+		corpus = append(corpus, corpusEntry{name, pre + a + post, probes})
+	}
+	add("lenmask-slice-text", "", "", 0, 62, 63, 64, 65, 100, 200)
+	add("lenmask-map-text", "", "", 13, 63, 64, 65, 100)
+	add("lenmask-map-text-200", "", "", 15, 200, 62)
+	add("lenmask-slice-paren", "(", ")", 0, 63, 64, 65)
+	add("lenmask-slice-prefixed", "x(", ")", 0, 63, 64, 100)
+	add("lenmask-map-paren", "(", ")", 15, 64, 65)
+	add("lenmask-map-prefixed", "x(", ")", 15, 64, 200)
+	add("lenmask-slice-noncapture", "(?:", ")", 1, 62, 64)
 }
 
 func manyAlts(n int) string {
